@@ -1,10 +1,10 @@
 (* The hypotheses of the composition theorems of Proofs/Join.v / Proofs/JoinTri.v (poly_hyps, tri_hyps) follow from a
    bound on the input coordinates and the stroke width.
-   Ingredients: the overflow builder's bound on the used join point (Proofs/Overflow.v); the line builder's invariant of the ParallelsIterator walk (Proofs/ThicklineOverflow.v
+   Ingredients: the bound on the used join point (Proofs/JoinPointBound.v, after the overflow builder's C08_join_point_bound); the line builder's invariant of the ParallelsIterator walk (Proofs/ThicklineOverflow.v
    parallels_states_fit: every parallel starts within 6w+7 of the line's start; Proofs/Thickline.v parallels_total:
    the fuel never runs out). *)
 From EG Require Import Base.Prelude Base.Lemmas Model.Geometry Model.Style Model.Line Model.Thickline Model.Join Model.JoinTri.
-From EG Require Import Proofs.Geometry Proofs.Line Proofs.Thickline Proofs.ThicklineOverflow Proofs.Join Proofs.JoinTri.
+From EG Require Import Proofs.Geometry Proofs.Line Proofs.Thickline Proofs.ThicklineOverflow Proofs.Join Proofs.JoinTri Proofs.JoinPointBound.
 From Coq Require Import ZifyBool.
 
 Ltac Zify.zify_post_hook ::= Z.to_euclidean_division_equations.
@@ -78,53 +78,18 @@ Proof.
   destruct te, tr; cbn [px py]; repeat split; lia.
 Qed.
 
-(* ---- used intersection points of lines within +-1280 ---------------------------------------------------------------
-   The overflow builder's Proofs/Overflow.v (C08_join_point_bound) bounds the point `fn intersections` actually uses - the
-   rounded intersection when nearly_colinear_has_error is false, the end of the first edge otherwise - by 13 108 481 for
-   edge lines within +-(1024 + 2 * 128) = +-1280.  Its model (Model/Overflow.v) spells the same formulas with its own
-   definitions; the bridge lemmas below identify them with Model/Join.v. *)
-From EG Require Model.Overflow Proofs.Overflow.
-
-Definition rbound : Z := 1280.
+(* ---- used intersection points of lines within +-8191 ---------------------------------------------------------------
+   Proofs/JoinPointBound.v: when nearly_colinear_has_error is false the rounded intersection lies within 536 748 040 < 2^29
+   (the argument of the overflow builder's C08_join_point_bound, with the constant 8191 instead of 1280). *)
+Definition rbound : Z := 8191.
 
 Lemma within_big p : within rbound p -> jpt_big p.
 Proof. unfold within, jpt_big, jbig, rbound. lia. Qed.
 
-Lemma lwithin_edge_line l : lwithin rbound l -> Model.Overflow.edge_line l.
-Proof.
-  unfold lwithin, within, rbound, Model.Overflow.edge_line, Model.Overflow.edge_point, Model.Overflow.edge_max,
-    Model.Overflow.ds_max, Model.Overflow.ds_wmax. lia.
-Qed.
+Lemma lwithin_lbound l : lwithin rbound l -> lbound ebound l.
+Proof. unfold lwithin, within, rbound, lbound, pbound, ebound. tauto. Qed.
 
-Lemma ov_den l1 l2 : Model.Overflow.ip_denominator l1 l2 = ip_den (ip_from_lines l1 l2).
-Proof. reflexivity. Qed.
-Lemma ov_xnum l1 l2 : Model.Overflow.ip_x_numerator l1 l2 = ip_x_numerator (ip_from_lines l1 l2).
-Proof. reflexivity. Qed.
-Lemma ov_ynum l1 l2 : Model.Overflow.ip_y_numerator l1 l2 = ip_y_numerator (ip_from_lines l1 l2).
-Proof. reflexivity. Qed.
-Lemma ov_nearly l1 l2 : Model.Overflow.nearly_colinear l1 l2 = nearly_colinear_has_error (ip_from_lines l1 l2).
-Proof. reflexivity. Qed.
-
-Lemma ov_round_div den num : den <> 0 -> Model.Overflow.round_div den num = round_div den num.
-Proof.
-  intros H. unfold Model.Overflow.round_div, round_div, round_div_raw, sat_as_i32.
-  destruct (den <? 0) eqn:E; rewrite div_euclid_pos by lia; reflexivity.
-Qed.
-
-Lemma ov_intersection l1 l2 :
-  Model.Overflow.ip_intersection l1 l2 =
-  match ip_intersection (ip_from_lines l1 l2) with IPoint p _ => Some p | IColinear => None end.
-Proof.
-  unfold Model.Overflow.ip_intersection, ip_intersection. rewrite ov_den.
-  destruct (ip_den (ip_from_lines l1 l2) =? 0) eqn:E; [reflexivity|].
-  rewrite !ov_round_div by lia. rewrite ov_xnum, ov_ynum. reflexivity.
-Qed.
-
-(* a value the clamp left within +-2^29 was not clamped *)
-Lemma sat_small x : - jbig <= sat_as_i32 x <= jbig -> in_i32 x = true.
-Proof. unfold sat_as_i32, in_i32, i32_min, i32_max, jbig. lia. Qed.
-
-(* the point `fn intersections` uses for a pair of edges within +-1280: within +-2^29, and no cast reached *)
+(* the point `fn intersections` uses for a pair of edges within +-8191: within +-2^29, and no cast reached *)
 Lemma used_point_range l1 l2 : lwithin rbound l1 -> lwithin rbound l2 ->
   isect_used_nosat (ip_from_lines l1 l2) = true /\
   match ip_intersection (ip_from_lines l1 l2) with
@@ -132,21 +97,20 @@ Lemma used_point_range l1 l2 : lwithin rbound l1 -> lwithin rbound l2 ->
   | IColinear => True
   end.
 Proof.
-  intros H1 H2. pose proof (lwithin_edge_line _ H1) as E1. pose proof (lwithin_edge_line _ H2) as E2.
-  pose proof (Proofs.Overflow.ip_intersection_bound l1 l2) as B. rewrite ov_nearly, ov_intersection in B.
+  intros H1 H2. pose proof (ip_intersection_raw_bound l1 l2 (lwithin_lbound _ H1) (lwithin_lbound _ H2)) as B.
   unfold isect_used_nosat, isect_nosat.
   destruct (nearly_colinear_has_error (ip_from_lines l1 l2)) eqn:NE; cbn [orb negb].
   - split; [reflexivity|]. destruct (ip_intersection (ip_from_lines l1 l2)); [|trivial]. apply within_big. apply H2.
-  - unfold ip_intersection in *. destruct (ip_den (ip_from_lines l1 l2) =? 0) eqn:Z; [split; [reflexivity | trivial]|].
-    cbn [orb]. specialize (B _ E1 E2 eq_refl eq_refl). destruct B as [Bx By]. cbn [px py] in Bx, By.
+  - unfold ip_intersection. destruct (ip_den (ip_from_lines l1 l2) =? 0) eqn:Z; [split; [reflexivity | trivial]|].
+    cbn [orb]. specialize (B eq_refl ltac:(lia)). destruct B as [Bx By].
+    unfold ip_intersection_raw in *. cbn [px py] in Bx, By.
+    assert (Ix : in_i32 (round_div_raw (ip_den (ip_from_lines l1 l2)) (ip_x_numerator (ip_from_lines l1 l2))) = true)
+      by (unfold in_i32, i32_min, i32_max; lia).
+    assert (Iy : in_i32 (round_div_raw (ip_den (ip_from_lines l1 l2)) (ip_y_numerator (ip_from_lines l1 l2))) = true)
+      by (unfold in_i32, i32_min, i32_max; lia).
     split.
-    + unfold pt_in_i32, ip_intersection_raw; cbn [px py]. unfold round_div in Bx, By.
-      assert (Ix : in_i32 (round_div_raw (ip_den (ip_from_lines l1 l2)) (ip_x_numerator (ip_from_lines l1 l2))) = true)
-        by (apply sat_small; unfold jbig; lia).
-      assert (Iy : in_i32 (round_div_raw (ip_den (ip_from_lines l1 l2)) (ip_y_numerator (ip_from_lines l1 l2))) = true)
-        by (apply sat_small; unfold jbig; lia).
-      rewrite Ix, Iy. reflexivity.
-    + unfold jpt_big, jbig; cbn [px py]. lia.
+    + unfold pt_in_i32; cbn [px py]. rewrite Ix, Iy. reflexivity.
+    + unfold round_div. rewrite !sat_as_i32_id by assumption. unfold jpt_big, jbig; cbn [px py]. lia.
 Qed.
 
 (* ---- joins ------------------------------------------------------------------------------------------------ *)
@@ -180,7 +144,7 @@ Proof.
     destruct (_ <=? _); jb.
 Qed.
 
-(* vertices within +-V, width w with V + 6w + 8 <= 1280 *)
+(* vertices within +-V, width w with V + 6w + 8 <= 8191 *)
 Definition range_ok (V w : Z) : Prop := 0 <= w /\ 0 <= V /\ V + 6 * w + 8 <= rbound.
 
 Lemma lwithin_mono B B' l : B <= B' -> lwithin B l -> lwithin B' l.
@@ -309,7 +273,7 @@ Proof.
   rewrite (proj2 (lj_from_points_big V w SONone _ _ _ R B1 B2 B3)). reflexivity.
 Qed.
 
-(* C07 for thick polylines from input bounds alone: all vertices within +-V before and after the move, V + 6 w + 8 <= 1280 *)
+(* C07 for thick polylines from input bounds alone: all vertices within +-V before and after the move, V + 6 w + 8 <= 8191 *)
 Lemma poly_thick_points_tr_range V w d pts t : range_ok V w ->
   Forall (within V) pts -> Forall (within V) (map (tr_pt d) pts) ->
   poly_thick_points (map (tr_pt d) pts) t w = option_map (map (tr_pt d)) (poly_thick_points pts t w).
